@@ -1,6 +1,7 @@
 package exec
 
 import (
+	"net/url"
 	"fmt"
 
 	"verif/engine/sym"
@@ -589,4 +590,56 @@ func (e *Exec) IteStr(c *sym.Term, a, b *Str) *Str {
 		cells[k] = cc.Ite(c, x, y)
 	}
 	return e.mkView(&StrBase{Cells: cells, Name: "ite"}, e.i64(0), cc.Ite(c, e.lenOf(a), e.lenOf(b)), n)
+}
+
+// escapePath: net/url's escape(s, encodePath) over a symbolic byte string - every byte that is not unreserved and not
+// one of $&+,/:;=@ becomes %XX (upper-case hex). The output has up to 3*Max bytes; byte k of the input lands at the
+// prefix sum of the widths before it.
+func (e *Exec) escapePath(s *Str) *Str {
+	c := e.C
+	if s.IsConc {
+		return e.ConcStr((&url.URL{Path: s.Conc}).EscapedPath())
+	}
+	n := s.Max
+	ln := e.lenOf(s)
+	var keep [128]bool
+	for _, ch := range "abcdefghijklmnopqrstuvwxyzABCDEFGHIJKLMNOPQRSTUVWXYZ0123456789-_.~$&+,/:;=@" {
+		keep[ch] = true
+	}
+	b := make([]*sym.Term, n)
+	esc := make([]*sym.Term, n)
+	valid := make([]*sym.Term, n)
+	pos := make([]*sym.Term, n+1)
+	pos[0] = e.i64(0)
+	for k := 0; k < n; k++ {
+		b[k] = e.at(s, k)
+		esc[k] = c.Not(e.byteInTable(b[k], &keep))
+		valid[k] = c.Slt(e.i64(k), ln)
+		w := c.Ite(valid[k], c.Ite(esc[k], e.i64(3), e.i64(1)), e.i64(0))
+		pos[k+1] = c.Add(pos[k], w)
+	}
+	hex := func(nib *sym.Term) *sym.Term { // nib: BV8 in 0..15
+		return c.Ite(c.Ult(nib, c.BV(10, 8)), c.Add(nib, c.BV('0', 8)), c.Add(nib, c.BV('A'-10, 8)))
+	}
+	cells := make([]*sym.Term, 3*n)
+	for j := 0; j < 3*n; j++ {
+		cell := c.BV(0, 8)
+		jj := e.i64(j)
+		for k := n - 1; k >= 0; k-- {
+			if j < k || j > 3*k+2 {
+				continue // byte k starts somewhere in k..3k
+			}
+			at0 := c.And(valid[k], c.Eq(pos[k], jj))
+			at1 := c.And(valid[k], esc[k], c.Eq(c.Add(pos[k], e.i64(1)), jj))
+			at2 := c.And(valid[k], esc[k], c.Eq(c.Add(pos[k], e.i64(2)), jj))
+			hi := hex(c.Lshr(b[k], c.BV(4, 8)))
+			lo := hex(c.BvAnd(b[k], c.BV(15, 8)))
+			cell = c.Ite(at0, c.Ite(esc[k], c.BV('%', 8), b[k]), c.Ite(at1, hi, c.Ite(at2, lo, cell)))
+		}
+		cells[j] = cell
+	}
+	base := &StrBase{Cells: cells, Name: "escaped"}
+	esc0 := e.mkView(base, e.i64(0), pos[n], 3*n)
+	// (*URL).EscapedPath leaves the path "*" alone
+	return e.IteStr(e.StrEq(s, e.ConcStr("*")), e.ConcStr("*"), esc0)
 }
